@@ -1,5 +1,5 @@
 (* C10 — invariants of the repaired relay ([cfg_fixed]) over all reachable
-   states, as one boolean predicate preserved by every label. *)
+   states, preserved by every label. *)
 From Coq Require Import List Bool Arith Lia.
 From Martian.C10 Require Import Gen_H2Const Model Proofs_Measure.
 Import ListNotations.
@@ -24,27 +24,37 @@ Definition dir_inv (m : mpc) (dn : bool) (x : dstate) : bool :=
       | _, _ => true end)
   && (match rd x with RNot => rf_gone (rf x) && negb (werr x) | _ => true end)
   (* at the select a ReadFrame goroutine is outstanding or has posted *)
-  && (match rd x with RSel => negb (rf_gone (rf x)) | _ => true end)
+  && (match rd x with
+      | RSel => negb (rf_gone (rf x))
+      | RLock _ _ _ | REmit _ _ _ => rf_gone (rf x)   (* the posted frame has been taken *)
+      | _ => true end)
   (* Proxy returns only after both directions have *)
   && (match m with MReturned => negb (reader_alive (rd x)) | _ => true end).
 
-(* evidence that the session is ending, per direction *)
-Definition ev_dir (x : dstate) : bool :=
-  existsb is_bad (inflight x)
-  || (match rf x with RFPosted (RFrame KBad) => true | _ => false end)
-  || werr x
-  || (match rd x with RDoneSend | RExited | RRet => true | _ => false end).
+Definition dinv (s : state) (d : side) : bool := dir_inv (main s) (done s) (getd s d).
 
-Definition glob_inv (s : state) : bool :=
-  (match main s with
-   | MReturned => sc_closed s
-   | _ => negb (sc_closed s) && negb (cc_closed s) end)
-  && implb (trig s)
-       (closing s || negb (conn_open (cli s)) || negb (conn_open (srv s)) || done s
-        || returned s || ev_dir (dc s) || ev_dir (ds s)).
+(* the upstream connection is closed exactly when Proxy has returned; the
+   caller closes the client connection only after that *)
+Definition glob1 (s : state) : bool :=
+  match main s with
+  | MReturned => sc_closed s
+  | _ => negb (sc_closed s) && negb (cc_closed s)
+  end.
 
-Definition invb (s : state) : bool :=
-  dir_inv (main s) (done s) (dc s) && dir_inv (main s) (done s) (ds s) && glob_inv s.
+(* evidence that the session is ending *)
+Definition left_loop (r : rpc) : Prop := r = RDoneSend \/ r = RExited \/ r = RRet.
+
+Definition EvD (x : dstate) : Prop :=
+  existsb is_bad (inflight x) = true \/ rf x = RFPosted (RFrame KBad) \/ werr x = true \/ left_loop (rd x).
+
+Definition Ev (s : state) : Prop :=
+  closing s = true \/ conn_open (cli s) = false \/ conn_open (srv s) = false \/ done s = true
+  \/ main s = MReturned \/ EvD (dc s) \/ EvD (ds s).
+
+Definition TrigInv (s : state) : Prop := trig s = true -> Ev s.
+
+Definition Inv (s : state) : Prop :=
+  dinv s Cl = true /\ dinv s Sv = true /\ glob1 s = true /\ TrigInv s.
 
 Ltac split_hyps :=
   repeat match goal with
@@ -58,50 +68,108 @@ Ltac crush_var :=
   | |- context [match ?v with _ => _ end] => is_var v; destruct v
   | |- context [if ?v then _ else _] => is_var v; destruct v
   | |- context [negb ?v] => is_var v; destruct v
-  | |- context [?v || _] => is_var v; destruct v
-  | |- context [_ || ?v] => is_var v; destruct v
   | |- context [?v && _] => is_var v; destruct v
   | |- context [_ && ?v] => is_var v; destruct v
-  | |- context [implb ?v _] => is_var v; destruct v
-  | |- context [existsb ?f ?l] => let E := fresh "E" in destruct (existsb f l) eqn:E
+  | |- context [in_loop ?v] => is_var v; destruct v
+  | |- context [reader_alive ?v] => is_var v; destruct v
+  | |- context [writer_alive ?v] => is_var v; destruct v
+  | |- context [rf_gone ?v] => is_var v; destruct v
   end.
 
-Ltac finish :=
-  simpl in *; try reflexivity; try discriminate; try assumption; try congruence.
-
+Ltac finish := simpl in *; try rewrite !orb_true_r; try reflexivity; try discriminate; try assumption.
 Ltac crush := finish; repeat (crush_var; finish).
 
 Lemma existsb_snoc : forall (f : kind -> bool) l x, existsb f (l ++ [x]) = existsb f l || f x.
 Proof. intros. rewrite existsb_app. simpl. rewrite orb_false_r. reflexivity. Qed.
 
-Lemma inv_init : invb init = true.
-Proof. reflexivity. Qed.
-
 Arguments cap : simpl never.
 Arguments Nat.ltb : simpl never.
 Arguments Nat.min : simpl never.
 
-Lemma inv_step : forall s l s',
-  invb s = true -> step cfg_fixed s l = Some s' -> invb s' = true.
+Ltac step_cases s l Hs :=
+  destruct_state s;
+  destruct l; repeat match goal with t : side |- _ => destruct t end;
+  cbn [step getd setd with_rd with_rd_rf exit_failed set_trig set_remote remote
+       dc ds main cli srv wbroken_c wbroken_s sc_closed cc_closed closing done trig
+       rd wr wfailed werr chan queued rf inflight other cfg_fixed fix_close fix_done fix_abort] in Hs;
+  repeat bm; try discriminate Hs; inversion Hs; subst; clear Hs;
+  repeat match goal with t : side |- _ => destruct t end.
+
+Ltac red_state :=
+  cbn [exit_failed set_trig set_remote getd setd with_rd with_rd_rf
+       dc ds main cli srv wbroken_c wbroken_s sc_closed cc_closed closing done trig
+       rd wr wfailed werr chan queued rf inflight other returned] in *.
+
+Lemma dinv_step_any : forall c s l s' d0,
+  dinv s Cl = true -> dinv s Sv = true -> step c s l = Some s' -> dinv s' d0 = true.
 Proof.
-  intros s l s' Hinv Hs.
-  destruct_state s.
-  destruct l; try destruct d; try destruct x;
-    cbn [step getd setd with_rd with_rd_rf exit_failed set_trig set_remote remote
-         dc ds main cli srv wbroken_c wbroken_s sc_closed cc_closed closing done trig
-         rd wr wfailed werr chan queued rf inflight other cfg_fixed fix_close fix_done fix_abort] in Hs;
-    repeat bm; try discriminate Hs; inversion Hs; subst; clear Hs;
-    repeat match goal with t : side |- _ => destruct t end;
-    unfold invb, dir_inv, glob_inv, ev_dir in *;
-    cbn [exit_failed set_trig set_remote getd setd with_rd with_rd_rf
-         dc ds main cli srv wbroken_c wbroken_s sc_closed cc_closed closing done trig
-         rd wr wfailed werr chan queued rf inflight other returned] in *;
-    try rewrite !existsb_snoc;
+  intros c s l s' d0 Hc Hv Hs.
+  step_cases s l Hs; destruct d0; unfold dinv, dir_inv in *; red_state;
     split_hyps; split_goal; crush.
 Qed.
 
-Lemma inv_run : forall ls s s',
-  invb s = true -> run cfg_fixed s ls = Some s' -> invb s' = true.
+Lemma dinv_step : forall s l s' d0,
+  dinv s Cl = true -> dinv s Sv = true -> step cfg_fixed s l = Some s' -> dinv s' d0 = true.
+Proof. intros. eapply dinv_step_any; eassumption. Qed.
+
+Lemma dinv_reachable_any : forall c s, reachable c s -> dinv s Cl = true /\ dinv s Sv = true.
+Proof.
+  intros c s [ls H]. revert H.
+  assert (G : forall ks s0, dinv s0 Cl = true /\ dinv s0 Sv = true -> run c s0 ks = Some s ->
+                            dinv s Cl = true /\ dinv s Sv = true).
+  { induction ks as [|l ks IH]; intros s0 [Hc Hv] Hr; simpl in Hr.
+    - inversion Hr; subst; split; assumption.
+    - destruct (step c s0 l) as [s1|] eqn:E; [|discriminate].
+      eapply IH; [|exact Hr]. split; eapply dinv_step_any; eassumption. }
+  apply G. split; reflexivity.
+Qed.
+
+Lemma glob1_step : forall s l s',
+  dinv s Cl = true -> dinv s Sv = true -> glob1 s = true ->
+  step cfg_fixed s l = Some s' -> glob1 s' = true.
+Proof.
+  intros s l s' Hc Hv Hg Hs.
+  step_cases s l Hs; unfold glob1 in *; red_state; clear Hc Hv; crush.
+Qed.
+
+Ltac ev_tac :=
+  unfold Ev, EvD, left_loop in *; red_state;
+  repeat match goal with f : kind |- _ => destruct f end;
+  try rewrite !existsb_snoc;
+  simpl existsb in *; simpl is_bad in *;
+  rewrite ?orb_false_r, ?orb_true_r in *;
+  intuition (try reflexivity; try congruence).
+
+Lemma trig_step : forall s l s',
+  dinv s Cl = true -> dinv s Sv = true -> TrigInv s ->
+  step cfg_fixed s l = Some s' -> TrigInv s'.
+Proof.
+  intros s l s' Hc Hv Ht Hs.
+  step_cases s l Hs; unfold TrigInv in *; red_state; intro Htr;
+    try (specialize (Ht Htr));
+    try (solve [clear Hc Hv; ev_tac]);
+    unfold dinv, dir_inv in *; red_state; split_hyps;
+    repeat match goal with
+           | H : context [match ?v with _ => _ end] |- _ => is_var v; destruct v; simpl in H; try discriminate H
+           | H : context [rf_gone ?v] |- _ => is_var v; destruct v; simpl in H; try discriminate H
+           | H : context [negb ?v] |- _ => is_var v; destruct v; simpl in H; try discriminate H
+           end;
+    ev_tac.
+Qed.
+
+Lemma inv_init : Inv init.
+Proof. unfold Inv, TrigInv. simpl. intuition discriminate. Qed.
+
+Lemma inv_step : forall s l s', Inv s -> step cfg_fixed s l = Some s' -> Inv s'.
+Proof.
+  intros s l s' (Hc & Hv & Hg & Ht) Hs. unfold Inv.
+  split; [eapply dinv_step; eassumption|].
+  split; [eapply dinv_step; eassumption|].
+  split; [eapply glob1_step; eassumption|].
+  eapply trig_step; eassumption.
+Qed.
+
+Lemma inv_run : forall ls s s', Inv s -> run cfg_fixed s ls = Some s' -> Inv s'.
 Proof.
   induction ls as [|l ls IH]; intros s s' Hi Hr; simpl in Hr.
   - inversion Hr; subst; assumption.
@@ -109,5 +177,5 @@ Proof.
     eapply IH; [eapply inv_step; eassumption | exact Hr].
 Qed.
 
-Lemma inv_reachable : forall s, reachable cfg_fixed s -> invb s = true.
+Lemma inv_reachable : forall s, reachable cfg_fixed s -> Inv s.
 Proof. intros s [ls H]. eapply inv_run; [exact inv_init | exact H]. Qed.
